@@ -7,7 +7,7 @@
    applied to parameter slice [bproj sp b] and data slice [bproj sd b]. *)
 From Coq Require Import Arith List Lia.
 Import ListNotations.
-From GPV Require Import Base.LinAlg Models.C08_shape Proofs.C08_shape Models.C08_diag Proofs.C08_diag Models.C08_prior Proofs.C08_prior Models.C08_index Proofs.C08_index.
+From GPV Require Import Base.LinAlg Models.C08_shape Proofs.C08_shape Models.C08_diag Proofs.C08_diag Models.C08_prior Proofs.C08_prior Models.C08_index Proofs.C08_index Models.C08_call Proofs.C08_call.
 
 (* row-major ravel/unravel round trips, all ranks, all shapes *)
 Theorem c08_ravel_unravel :
@@ -267,6 +267,66 @@ Theorem c08_model_list_kwargs_dropped_refuted :
     model_list_kw_dropped dflt ms xs kw <> model_list_kw ms xs kw.
 Proof. exact model_list_kw_dropped_refuted. Qed.
 Print Assumptions c08_model_list_kwargs_dropped_refuted.
+
+(* ---- THREE OPERANDS: an exact GP posterior has hyperparameters (batch shape sp), training data (str) and test
+   inputs (ste), each with its own batch shape (Models/C08_call.v).  Projecting an element index onto an operand
+   through the broadcast shape of that operand with ANY other shape is projecting onto the operand directly:
+   all ranks, all shapes, all indices (no validity hypothesis needed) *)
+Theorem c08_bproj_compose_l :
+  forall s s' t1 b, broadcast_shapes s s' = Some t1 -> bproj s (bproj t1 b) = bproj s b.
+Proof. exact bproj_compose_l. Qed.
+Print Assumptions c08_bproj_compose_l.
+Theorem c08_bproj_compose_r :
+  forall s s' t1 b, broadcast_shapes s s' = Some t1 -> bproj s' (bproj t1 b) = bproj s' b.
+Proof. exact bproj_compose_r. Qed.
+Print Assumptions c08_bproj_compose_r.
+
+(* hence the posterior computed in two stages (train and test combined on their own broadcast shape t1, the result
+   combined with the hyperparameters) has, at every element b, the replica built from the three slices
+   bproj sp b, bproj str b, bproj ste b - for ANY operation, any operand contents *)
+Theorem c08_three_operand_replica :
+  forall (P D1 D2 O : Type) sp str ste t1 (op : P -> D1 -> D2 -> O) param train test b,
+    broadcast_shapes str ste = Some t1 ->
+    batched3_staged sp str ste t1 op param train test b
+    = op (param (bproj sp b)) (train (bproj str b)) (test (bproj ste b)).
+Proof. intros. apply batched3_staged_eq. assumption. Qed.
+Print Assumptions c08_three_operand_replica.
+
+(* ExactGP.__call__ concatenates training and test inputs: as coded (expand iff the batch SHAPES differ) the two
+   operands of torch.cat have the broadcast batch shape on EVERY broadcastable pair, equal-rank pairs that differ
+   in size-1 dimensions included; on a non-broadcastable pair no operands are produced *)
+Theorem c08_exactgp_cat_every_broadcastable_pair :
+  forall str ste t, broadcast_shapes str ste = Some t ->
+    cat_operands str ste = Some (t, t) /\ cat_ok (t, t) = true.
+Proof. exact cat_operands_ok. Qed.
+Print Assumptions c08_exactgp_cat_every_broadcastable_pair.
+Theorem c08_exactgp_cat_not_broadcastable :
+  forall str ste, broadcast_shapes str ste = None -> str <> ste /\ cat_operands str ste = None.
+Proof. exact cat_operands_none. Qed.
+Print Assumptions c08_exactgp_cat_not_broadcastable.
+
+(* expanding only when the NUMBER of batch dimensions differs (a reading the code must not have) breaks torch.cat on
+   a broadcastable pair of equal rank (train [3], test [1]) ... *)
+Theorem c08_exactgp_cat_rank_test_refuted :
+  exists str ste t ab, broadcast_shapes str ste = Some t /\ length str = length ste /\
+    cat_operands_rank_test str ste = Some ab /\ cat_ok ab = false.
+Proof. exact cat_rank_test_refuted. Qed.
+Print Assumptions c08_exactgp_cat_rank_test_refuted.
+(* ... and is right exactly on the pairs where equal rank implies equal shape *)
+Theorem c08_exactgp_cat_rank_test_iff :
+  forall str ste t, broadcast_shapes str ste = Some t ->
+    ((exists ab, cat_operands_rank_test str ste = Some ab /\ cat_ok ab = true)
+     <-> (length str = length ste -> str = ste)).
+Proof. exact cat_rank_test_ok_iff. Qed.
+Print Assumptions c08_exactgp_cat_rank_test_iff.
+
+(* non-vacuity: train batch [2;1], test batch [1;3] (equal rank, stretched on both sides), hyperparameters [3] *)
+Example ex_c08_three_operands :
+  broadcast_shapes [2; 1] [1; 3] = Some [2; 3] /\ broadcast3 [3] [2; 1] [1; 3] = Some [2; 3] /\
+  bproj [2; 1] [1; 2] = [1; 0] /\ bproj [1; 3] [1; 2] = [0; 2] /\ bproj [3] [1; 2] = [2] /\
+  cat_operands [2; 1] [1; 3] = Some ([2; 3], [2; 3]).
+Proof. cbv. repeat split. Qed.
+Print Assumptions ex_c08_three_operands.
 
 (* non-vacuity of the partial-index hypotheses *)
 Example ex_c08_partial_index : valid [2; 3] ([1] ++ [2]) /\ lazy_index_shape [2; 3] [1] = [3].
